@@ -107,7 +107,7 @@ def observe(drv: CL.Driver, km, tk, rng, env_snap, originals, nq: int) -> Dict[s
         nodes = [n["p"] for n in rec["tree"]]
         for _ in range(nq):
             start = rng.choice(nodes) if rng.random() < 0.6 else []
-            name = rng.choice(["vf.aa", "vf.bb", "vf.cc", "vf.dd"])
+            name = rng.choice(["vf.aa", "vf.aa", "vf.bb", "vf.cc", "vf.dd", "vf.bo"])
             ver = rng.choice([None, None] + VERSIONS)
             how = rng.choice(["container", "node"])
             snode = drv.mc[km.path(start)]
@@ -323,7 +323,7 @@ def gen(rng: random.Random, h5rec: Dict[str, Any], stage: int, job: Dict[str, An
         hot = [n for n in nodes if any(s_ in job.get("_hot", ()) for s_ in n)]
         if hot and rng.random() < 0.5:
             a["p"] = rng.choice(hot)     # nodes at or below a name that merely looks reserved
-        keys = ["AA10", "AA20", "DD01", "AUX01"] + (["AA12", "BB10", "CC02", "BB10", "CC02"] if stage >= 1 else [])
+        keys = ["AA10", "AA20", "DD01", "AUX01"] + (["AA12", "BB10", "CC02", "BB10", "CC02", "BO10"] if stage >= 1 else [])
         a["cls"] = rng.choice(keys)
         if rng.random() < job.get("p_installed", 0.2):
             a["cls"] = "I:" + rng.choice(CL.INSTALLED)
